@@ -14,6 +14,26 @@ CHECKS = {
    ref="§5 C03"),
 }
 
+CHECKS["C06"] = dict(
+   text="Machine-checked proof that the model's header matcher accepts exactly the declarative SAME grammar (soundness "
+        "and completeness, longest-callsign rule stated), that the stored text is the matched prefix and re-parses to "
+        "an equal header, and that every accessor returns Done of exactly the grammar component (no Panic outcome) for "
+        "all byte strings. The matcher stands in for the regex engine; that step is validated on every run against the "
+        "real crate and, independently, Python's re on complete 1-edit neighbourhoods and generated/unstructured strings.",
+   note="Trusted: Coq kernel; the matcher-for-regex replacement (correspondence-tested only); extraction; harness; "
+        "Python re oracle. No axioms.",
+   technique="Coq proof (grammar soundness/completeness, accessor totality) + differential correspondence vs regex crate",
+   ref="§5 C06")
+CHECKS["C15"] = dict(
+   text="Machine-checked proof over Z (all years in chrono's range, all ordinals, all field values) that the +/-180-day "
+        "rule reconstructs the true issue instant whenever the receive day is within 90 days, that impossible dates give "
+        "an error, and that expiry is exactly issue + duration < now. chrono's calendar is re-stated in the model and "
+        "validated each run against chrono and Python datetime (1M date pairs quick, all 15.3M thorough).",
+   note="Trusted: Coq kernel; re-stated chrono calendar (correspondence-tested); extraction; harness; Python datetime "
+        "oracle. No axioms.",
+   technique="Coq proof (lia over floor-division calendar arithmetic) + differential correspondence vs chrono",
+   ref="§5 C15")
+
 NOT_APPLICABLE = {}
 
 def main():
